@@ -1,182 +1,13 @@
 //! Harness for the router properties. `h_router c15` / `h_router c14` read cases on
 //! stdin (one sexp per line) and print one observation per line.
-use leptos_router::{location::{RequestUrl, Url}, params::ParamsMap};
-use vsexp::{Lst, Num, Sexp};
 
 mod c14;
 
-mod c15 {
-    use super::*;
-
-    /// ParamsMap -> ((k (v1 v2 ..)) ..) in map order
-    pub fn pmap(m: &ParamsMap) -> Sexp {
-        let mut out: Vec<(String, Vec<String>)> = vec![];
-        for (k, v) in m.clone().into_iter() {
-            match out.last_mut() {
-                Some((pk, vs)) if *pk == k.as_ref() => vs.push(v),
-                _ => out.push((k.to_string(), vec![v])),
-            }
-        }
-        Lst(out
-            .into_iter()
-            .map(|(k, vs)| {
-                Lst(vec![
-                    Sexp::from_str(&k),
-                    Lst(vs.iter().map(|v| Sexp::from_str(v)).collect()),
-                ])
-            })
-            .collect())
-    }
-
-    fn text(s: &Sexp) -> String {
-        s.string().expect("case strings are valid UTF-8 by construction")
-    }
-
-    pub fn run(c: &Sexp) -> Sexp {
-        let arg = c.at(1);
-        match c.at(0).num() {
-            0 => Sexp::from_str(&Url::escape(&text(arg))),
-            1 => Sexp::from_str(&Url::unescape(&text(arg))),
-            2 => match RequestUrl::new(&text(arg)).parse() {
-                Ok(url) => pmap(url.search_params()),
-                Err(e) => Lst(vec![Num(-1), Sexp::from_str(&e.to_string())]),
-            },
-            3 => {
-                // build the map through the public API, check it is the intended one,
-                // write it as a query string and parse that back
-                // keys are stored as Cow: exercise both representations (an owned String and a
-                // `&'static str`, as literal keys in application code are)
-                let borrowed = c.at(2).num() == 1;
-                let mut m = ParamsMap::new();
-                for kv in arg.list() {
-                    let k = text(kv.at(0));
-                    for v in kv.at(1).list() {
-                        if borrowed {
-                            let ks: &'static str = Box::leak(k.clone().into_boxed_str());
-                            m.insert(ks, Url::escape(&text(v)));
-                        } else {
-                            m.insert(k.clone(), Url::escape(&text(v)));
-                        }
-                    }
-                }
-                let want = Lst(arg
-                    .list()
-                    .iter()
-                    .map(|kv| Lst(vec![kv.at(0).clone(), kv.at(1).clone()]))
-                    .collect());
-                if pmap(&m) != want {
-                    return Lst(vec![Num(-2), pmap(&m)]);
-                }
-                let qs = m.to_query_string();
-                let back = RequestUrl::new(&format!("/{qs}")).parse();
-                match back {
-                    Ok(url) => Lst(vec![Sexp::from_str(&qs), pmap(url.search_params())]),
-                    Err(e) => Lst(vec![Num(-1), Sexp::from_str(&e.to_string())]),
-                }
-            }
-            4 => {
-                // what flat_router / nested_router do with MatchParams::to_params()
-                let m: ParamsMap = arg
-                    .list()
-                    .iter()
-                    .map(|kv| (text(kv.at(0)), text(kv.at(1))))
-                    .collect();
-                pmap(&m)
-            }
-            5 => nested(&text(arg.at(0)), &text(arg.at(1))),
-            6 => flat(&text(arg)),
-            _ => Lst(vec![]),
-        }
-    }
-
-    thread_local! {
-        static SEEN: std::cell::RefCell<Vec<Sexp>> = const { std::cell::RefCell::new(Vec::new()) };
-    }
-
-    /// Server-render a real flat router (`/u/:id`) for the request path `/u/<raw>` and report
-    /// the params map the matched component reads through `use_params_map()`.
-    fn flat(raw: &str) -> Sexp {
-        use leptos::prelude::*;
-        use leptos_router::{
-            components::{FlatRoutes, Route, Router},
-            hooks::use_params_map,
-            ParamSegment, StaticSegment,
-        };
-        #[component]
-        fn User() -> impl IntoView {
-            let p = use_params_map();
-            SEEN.with(|s| s.borrow_mut().push(pmap(&p.get_untracked())));
-            "user"
-        }
-        let _ = any_spawner::Executor::init_futures_executor();
-        SEEN.with(|s| s.borrow_mut().clear());
-        let owner = Owner::new();
-        let html = owner.with(|| {
-            provide_context(RequestUrl::new(&format!("/u/{raw}")));
-            view! {
-                <Router>
-                    <FlatRoutes fallback=|| "notfound">
-                        <Route path=(StaticSegment("u"), ParamSegment("id")) view=User/>
-                    </FlatRoutes>
-                </Router>
-            }
-            .to_html()
-        });
-        drop(owner);
-        let seen = SEEN.with(|s| s.borrow().clone());
-        match seen.len() {
-            1 => seen[0].clone(),
-            n => Lst(vec![Num(-3), Num(n as i64), Sexp::from_str(&html)]),
-        }
-    }
-
-    /// Server-render a real nested router (`/:a` with child `:b`) for the request path
-    /// `/<raw_a>/<raw_b>` and report the params map the leaf component reads through
-    /// `use_params_map()` (= the nested router's params_including_parents memo).
-    fn nested(raw_a: &str, raw_b: &str) -> Sexp {
-        use leptos::prelude::*;
-        use leptos_router::{
-            components::{ParentRoute, Route, Router, Routes},
-            hooks::use_params_map,
-            nested_router::Outlet,
-            ParamSegment,
-        };
-        #[component]
-        fn Parent() -> impl IntoView {
-            view! { <Outlet/> }
-        }
-        #[component]
-        fn Leaf() -> impl IntoView {
-            let p = use_params_map();
-            SEEN.with(|s| s.borrow_mut().push(pmap(&p.get_untracked())));
-            "leaf"
-        }
-        let _ = any_spawner::Executor::init_futures_executor();
-        SEEN.with(|s| s.borrow_mut().clear());
-        let owner = Owner::new();
-        let html = owner.with(|| {
-            provide_context(RequestUrl::new(&format!("/{raw_a}/{raw_b}")));
-            view! {
-                <Router>
-                    <Routes fallback=|| "notfound">
-                        <ParentRoute path=(ParamSegment("a"),) view=Parent>
-                            <Route path=(ParamSegment("b"),) view=Leaf/>
-                        </ParentRoute>
-                    </Routes>
-                </Router>
-            }
-            .to_html()
-        });
-        drop(owner);
-        let seen = SEEN.with(|s| s.borrow().clone());
-        match seen.len() {
-            1 => seen[0].clone(),
-            n => Lst(vec![Num(-3), Num(n as i64), Sexp::from_str(&html)]),
-        }
-    }
-}
+mod c15;
 
 fn main() {
+    // the harness owns the executor: set before anything in /repo tries to install its own
+    let _ = any_spawner::Executor::init_futures_executor();
     let which = std::env::args().nth(1).unwrap_or_default();
     match which.as_str() {
         "c15" => vsexp::drive(c15::run),
